@@ -348,9 +348,10 @@ func ruleR15(c *Ctx) {
 		}
 		tArms, tDef, tDefPanics, tFound := c.codecArms(tu)
 		rArms, rDef, rDefPanics, rFound := c.codecArms(ru)
-		if !tFound && !rFound && !c.numericCodec(named) {
+		if !c.numericCodec(named) {
 			continue // not a numeric codec (alpha, collation)
 		}
+		_, _ = tFound, rFound
 		nCodec++
 		set := typeSetOf(named.TypeParams().At(0))
 		followed := map[string]bool{} // key types whose code the abstract interpreter follows to a result
@@ -428,6 +429,8 @@ func ruleR15(c *Ctx) {
 			}
 			if okLen {
 				c.r.ok("R15", key, m.pos(ta.pos), fmt.Sprintf("slice length %v = unsafe.Sizeof(%s)", lens, ts), props...)
+			} else if interpOK {
+				c.r.ok("R15", key, m.pos(ta.pos), fmt.Sprintf("the arm mentions slice lengths %v (a helper or another instantiation shared between widths); that every value of this type is encoded in exactly %d bytes is established by the abstract interpretation of the arm", lens, W), props...)
 			} else {
 				c.r.bad("R15", key, m.pos(ta.pos), fmt.Sprintf("Transform builds a slice of length %v for a %d-byte key type: not fixed-width big-endian of the full value", lens, W), props...)
 			}
@@ -449,6 +452,8 @@ func ruleR15(c *Ctx) {
 				}
 				if okCalls {
 					c.r.ok("R15", key, m.pos(af.pos), strings.Join(af.binCalls, ","), props...)
+				} else if interpOK {
+					c.r.ok("R15", key, m.pos(af.pos), fmt.Sprintf("the arm reaches %v (a helper or another instantiation shared between widths); the accessor used on the path of this type, its width and byte order are established by the abstract interpretation of the arm", af.binCalls), props...)
 				} else {
 					c.r.bad("R15", key, m.pos(af.pos), fmt.Sprintf("expected only binary.%s, found %v: another byte order or width round-trips but does not preserve order", want, af.binCalls), props...)
 				}
